@@ -255,7 +255,16 @@ impl Prop for C07 {
                     out.count("outside_issue_in_fallback");
                     continue;
                 }
-                let class = if wf::in_ranges(&orphans, ord) || (ord > 0 && wf::in_ranges(&orphans, ord - 1)) { "child-of-verbatim-parent" } else { "outside-not-formatted" };
+                let toggle_after_type_head = regions.iter().any(|&(a, b, _)| {
+                    [a, b].iter().any(|&p| p > 0 && matches!(lay.pieces[p - 1].text.to_ascii_lowercase().as_str(), "class" | "record" | "interface" | "object" | "=" | "helper" | "packed"))
+                });
+                let class = if wf::in_ranges(&orphans, ord) || (ord > 0 && wf::in_ranges(&orphans, ord - 1)) {
+                    "child-of-verbatim-parent"
+                } else if toggle_after_type_head {
+                    "comment-after-type-head"
+                } else {
+                    "outside-not-formatted"
+                };
                 out.violate("C07", class, format!("[{}] code outside the verbatim regions is not canonical: {} {} (…{:?}…)", cfg.short(), is.rule, is.detail, excerpt(&output, is.at, 40)), &input, Some(&cfg));
             }
             let _ = GK::Ident;
